@@ -31,6 +31,9 @@ def classify_until(lUntils, iToken, lObjects, oType=parser.todo):
     iCloseParenthesis = 0
     while iCurrent < iStop:
         iCurrent = utils.find_next_token(iCurrent, lObjects)
+        if type(lObjects[iCurrent]) != parser.item:
+            # no unclassified token left before the end of the file
+            break
         if utils.token_is_open_parenthesis(iCurrent, lObjects):
             iOpenParenthesis += 1
         if utils.token_is_close_parenthesis(iCurrent, lObjects):
